@@ -146,10 +146,91 @@ PROPS['C10'] = {
 }
 
 
+NATIVE_WHAT = {
+    'c07': 'real raw_cache::prune on real directories (<= 3 files x 3 mtimes x read marks x capacities; <= 4 in the thorough tier) against an executable Second Chance twin',
+    'c08': 'real second_chance::Update::new against an executable clock twin, all sequences of <= 5 entries over 3 ranks x flags, capacities 0..n+1 and usize::MAX',
+    'c10': 'real plain cache: population bound k + max(1, k/3) over write sequences for small capacities',
+    'c12': 'real sharded cache: directory names, put location and probe order against an independent reimplementation of the documented hash functions',
+    'c13': 'real Cache::get_or_update over writer {none, plain, sharded} x key location x judge action x populate outcome x checker (240 configurations), and get / touch '
+           'through stacks of three read-only levels x writer {none, empty, holding} x checker x equal/different copies (72 configurations)',
+    'c16': 'a name grammar (empty, reserved first bytes, embedded /, .., long, non-ASCII) x {set, put, get, touch} x {plain, sharded} inside a sentinel tree',
+    'c17': 'real prune / set on directories mixing key files, dot-prefixed application files (one with a non-UTF-8 name), subdirectories and temporary files on both sides of the age limit',
+}
+
+
+replay_c08.what = NATIVE_WHAT['c08']
+replay_c12.what = NATIVE_WHAT['c12']
+replay_c10.what = NATIVE_WHAT['c10']
+
+
 def _native(sub, quick_args, thorough_args):
     def rp(failure, tier):
         return replay.kreplay(sub, quick_args if tier == 'quick' else thorough_args).get('found')
+    rp.what = NATIVE_WHAT.get(sub, sub)
     return rp
+
+
+def _native_many(subs):
+    """Several native searches in turn; the first failing input wins."""
+    def rp(failure, tier):
+        for sub, qa, ta in subs:
+            found = replay.kreplay(sub, qa if tier == 'quick' else ta).get('found')
+            if found:
+                found['search'] = sub
+                return found
+        return None
+    rp.what = '; '.join(NATIVE_WHAT.get(sub, sub) for sub, _, _ in subs)
+    return rp
+
+
+def replay_c20(failure, tier):
+    """Bounded stand-in for what the contracts cannot see (descriptors are closed by Drop) and for undecided runs:
+    the real crate under strace, see replay/src/c20.rs and tools/replay.py::c20_search."""
+    return replay.c20_search(tier)
+
+
+replay_c20.what = ('system-call trace (strace) of get/touch/set/put/ensure through a plain, a sharded and a stacked cache (plain writer, three plain readers, checker) over '
+                   'directories holding 3 and 1500 entries (0/10/100/2000 in the thorough tier), maintenance not firing: identical call counts, no lock or sleep call, at most '
+                   '2 (3 with a checker) descriptors at once, none left open, <= 2 open attempts per directory for a lookup, put/set onto an entry with an extra hard link completes')
+
+
+def replay_c18(failure, tier):
+    """Bounded stand-in for C18 / C03 / C05: every system call of one operation fails in turn (strace fault injection);
+    see replay/src/c18.rs and tools/replay.py::c18_search."""
+    return replay.c18_search(tier)
+
+
+replay_c18.what = ('fault injection (strace -e inject, EIO) into every system call, one at a time, of set / put / ensure (miss, promotion) / Replace / checked get through a stacked '
+                   'cache (134 single-fault runs; 301 over 17 scenarios in the thorough tier): no panic but the documented one, Ok implies the effect, Err is gone on re-issue, '
+                   'visible files are complete and read-only, no temporary file is left, a failed flush is never followed by publication')
+
+
+def thorough_c18(pid):
+    def th(tier):
+        found = replay.c18_search('thorough')
+        out = {'bounded': ['fault injection (strace -e inject, EIO) into every system call, one at a time, of set / put / put onto an existing key / ensure (miss, hit, promotion) / '
+                           'get_or_update with Replace / get / touch through a stacked cache with a plain or a sharded write side (%s single-fault runs): no panic except the documented '
+                           'failed flush of a value handed over by path, Ok implies the effect, an Err is gone on re-issue, whatever is visible under a key name is a complete read-only '
+                           'value, no temporary file of the library is left, a failed flush is never followed by publication' % getattr(replay.c18_search, 'runs', '?')],
+               'coverage': {'native_evaluations': getattr(replay.c18_search, 'runs', 0)}}
+        if found:
+            out['violations'] = [{'property': pid, 'obligation': ['bounded: fault injection on the real crate'], 'failing_input': found}]
+        return out
+    return th
+
+
+def thorough_c20(pid):
+    def th(tier):
+        found = replay.c20_search('thorough')
+        out = {'bounded': ['system-call trace (strace) of get/touch/set/put/ensure through a plain, a sharded and a stacked cache (plain writer, three plain readers, '
+                           'checker) over directories pre-populated with 0, 10, 100 and 2000 entries, maintenance not firing: identical call counts across sizes, '
+                           'no flock/fcntl-lock/nanosleep, at most 2 (3 with a checker) descriptors open at once, none left open, at most two open attempts per '
+                           'directory for a lookup; a put/set onto an entry with an extra hard link completes'],
+               'coverage': {'native_evaluations': 4}}
+        if found:
+            out['violations'] = [{'property': pid, 'obligation': ['bounded: system-call trace of the real crate'], 'failing_input': found}]
+        return out
+    return th
 
 
 def _thorough_native(pid, sub, args, what):
@@ -235,7 +316,7 @@ _u4('C16', 'Unbounded proof: validate_file_name accepts exactly the names whose 
     'CacheDir::{get,touch,set,put} and the plain::Cache wrappers return that error with the World completely unchanged; for accepted names every effect is confined '
     'to child(base, name) (write_frame / lookup frame), and rename/link/unlink/utimens/mkdir stubs require their target to be a cache-namespace path, a .kismet_temp '
     'child, a private file or a cache directory.',
-    replayer=_native('c16', [], []), thorough=_thorough_native('C16', 'c16', [], 'name grammar x {set,put,get,touch} x {plain,sharded} in a sentinel tree'),
+    replayer=_native_many([('c16', [], []), ('c17', [], [])]), thorough=_thorough_native('C16', 'c16', [], 'name grammar x {set,put,get,touch} x {plain,sharded} in a sentinel tree'),
     not_covered=[SHARD_NC, STACK_NC])
 _u4('C09', 'Unbounded proof for every timestamp granularity in [1 ns, 2 s] and every kernel atime behaviour (open may or may not advance atime): after a successful '
     'CacheDir::get hit, touch (true) or put onto an existing key the entry satisfies atime >= mtime with mtime and content unchanged; after set or an inserting put '
@@ -252,7 +333,8 @@ _u4('C02', 'Unbounded proof of the crash invariant at every call boundary: every
 _u4('C18', 'Unbounded proof with failure enabled at every POSIX stub (any call may fail, any number of them): every operation ensures valid on every exit, Ok implies its effect '
     '(success-means-bound, exact effects when no fault occurred), errors are explained (invalid name, absent source, or a counted hard fault) and panic-freedom '
     '(assert!/expect/unwrap/arithmetics are proof obligations).',
-    not_covered=['temporary files are not leaked (Drop of NamedTempFile/TempPath is invisible to contracts)', SHARD_NC, STACK_NC])
+    replayer=replay_c18, thorough=thorough_c18('C18'),
+    not_covered=['that temporary files are not leaked is not provable by contract (Drop of NamedTempFile/TempPath): it is only observed, bounded, by the fault-injection runs of replay/src/c18.rs', SHARD_NC, STACK_NC])
 _u4('C05', 'Proof (sequential model) that absence is never an error: is_absent_file_error is exactly ENOENT-kind or ESTALE; get reports Ok(None), touch Ok(false), '
     'ensure_file_removed / apply_update / collect_cached_files / cleanup skip what has vanished, prune on a missing directory yields Ok(0) through definitely_cleanup; '
     'every Err of an operation implies a counted hard fault (or an invalid name / absent source).',
@@ -260,10 +342,12 @@ _u4('C05', 'Proof (sequential model) that absence is never an error: is_absent_f
 _u4('C06', 'Proof of termination (decreases on every loop) and of closed-form bounds on the number of own filesystem calls: get <= 6, touch <= 2, set <= 22, put <= 26 outside '
     'maintenance; collect <= 2*(2+2L), prune <= 2*(2+3L), maintenance <= 2*(4+3L) for L directory items read (every bound is twice the current count on purpose: the property asks for a constant, resp. linear, bound, not for today\'s number of calls; open attempts are bounded exactly). The lock and wait primitives (File::lock*, try_lock*, unlock, libc::flock, thread::sleep, yield_now, spin_loop) exist as stand-ins whose precondition is `false`, so any call to one is a failed obligation, '
     'and no retry-until loop can be given a decreases measure.',
+    replayer=replay_c20, thorough=thorough_c20('C06'),
     not_covered=[CONC_NC, 'regenerate() terminates with probability 1 only', SHARD_NC, STACK_NC])
 _u4('C20', 'Proof that the step and open counts of get/touch/set/put outside maintenance are constants independent of the directory population (the postconditions are closed '
     'formulas with 100% slack on calls and none on opens: <=6 calls/1 open, <=2/0, <=22/0, <=26/0) and that no directory item is read (listed unchanged) unless the trigger fires.',
-    not_covered=['peak and residual open descriptors (closing is Drop, invisible to contracts)', SHARD_NC, STACK_NC])
+    replayer=replay_c20, thorough=thorough_c20('C20'),
+    not_covered=['peak and residual open descriptors are not provable by contract (closing is Drop): they are only observed, bounded, by the system-call trace of replay/src/c20.rs', SHARD_NC, STACK_NC])
 _u4('C15', 'Proof that lookups change nothing but the access time of the entry found (files, dirs equal; every inode equal up to atime, and only the found one), and that every '
     'mutating stub (rename, link, unlink, chmod, utimensat with mtime, mkdir) requires its target not to be under a read-only root.',
     not_covered=['that ReadOnlyCache / the read side of Cache only ever call get and touch is part of the stack unit', STACK_NC, SHARD_NC])
@@ -287,6 +371,7 @@ _u4('C03', 'Proof that rename/link require `must_sync ==> synced` and `!writable
     'require a flushed source when auto_sync is on (value_ok), and that every publishing path of stack.rs establishes it: set::doit / put::doit through maybe_sync_path (open + fsync, '
     'documented panic on failure), set_temp_file / put_temp_file / get_or_update miss and replace through Cache::finalize_tempfile, promotion through finalize_tempfile(tmp, auto_sync) '
     'after the copy; a failed flush returns Err before any publication; nothing clears the synced flag except writing, and only invisible files are ever written.',
+    replayer=replay_c18, thorough=thorough_c18('C03'),
     not_covered=['the two-line shims Cache::{set, put, set_temp_file, put_temp_file} that forward to the `doit` functions under contract are generic and dropped'])
 PROPS['C10']['units'] = ['u2_trigger', 'u0_stubs', 'u6_stack']
 PROPS['C10']['assumptions'] += FS_ASSUMPTIONS
@@ -332,6 +417,28 @@ _u4('C14', 'Unbounded proof, for stacks of any depth: with a checker configured,
     not_covered=['checker panics (no catch_unwind exists in the functions under contract; unwinding is not a contract)',
                  ],
     extra_assume=STACK_ASSUME)
+
+# ---- additions of rounds 4-6 (see DESIGN sections 18-19) -------------------------------------------------------------------
+PROPS['C10']['level_text'] += (' The ordering "maintenance runs before the write\'s own insertion" is also a clause without a witness: the ghost field World.pub_listed '
+                                'records the number of directory items read at the last successful publish step, and CacheDir::{set,put} ensure that no item was read after it.')
+PROPS['C07']['level_text'] += (' CacheDir::{definitely_cleanup, maintain} ensure that, fault-free, the plan applied is the one for the *configured* capacity (then only stale temporary '
+                               'files go); sharded::Cache::new ensures that a shard\'s capacity is the total divided by the number of shards, rounded up.')
+PROPS['C11']['level_text'] += (' Every disappearance is attributable to the plan for the configured capacity (same clause as C07), shard capacity = ceil(total / shards).')
+PROPS['C03']['level_text'] += (' A failed fsync is sticky in the model (Inode.flush_failed): a later successful fsync does not make the file publishable.')
+PROPS['C05']['level_text'] += (' The one stand-in that models losing a race is std::fs::create_dir: it may fail with AlreadyExists whatever the state says, and that is never a fault, '
+                               'so letting it through fails "every error is an invalid name, an absent source or a real fault".')
+PROPS['C17']['level_text'] += (' remove_dir / remove_dir_all have precondition false.')
+for _p in ('C06', 'C20'):
+    PROPS[_p]['level_text'] += (' Bounded, next to the proof and never counted as proved: a system-call trace of the real crate (replay/src/c20.rs) for identical call counts across '
+                                'directory sizes, absence of lock and sleep calls, peak and residual descriptors, and completion of a put/set onto an entry with an extra hard link.')
+for _p in ('C18', 'C03'):
+    PROPS[_p]['level_text'] += (' Bounded, next to the proof and never counted as proved: single-fault injection into every system call of each operation of the real crate '
+                                '(replay/src/c18.rs): no undocumented panic, Ok implies the effect, re-issue succeeds, visible files are complete and read-only, no temporary file '
+                                'is left, a failed flush is never followed by publication.')
+for _p in PROPS:
+    if PROPS[_p].get('replayer') is not None:
+        PROPS[_p]['level_note'] = PROPS[_p].get('level_note', '') + (' A bounded native search of the real crate runs next to every quick check (coverage.bounded): it can only add a '
+                                                                     'violation with a concrete failing input, never an OK.')
 
 NOT_CLAIMED = {
     'C04': 'linearizability under real interleavings needs interference in the filesystem stubs; the contracts built here are sequential (per-operation atomic steps are visible in C11/C01 evidence)',
